@@ -1,3 +1,4 @@
+mod actor_random;
 mod cluster;
 mod consistency;
 mod consumers;
@@ -14,6 +15,9 @@ fn main() {
     let cmd = std::env::args().nth(1).unwrap_or_default();
     if cmd == "replay-keyspace" {
         return keyspace::main();
+    }
+    if cmd == "actor-random" {
+        return actor_random::main();
     }
     if cmd == "replay-consumers" {
         return consumers::replay();
